@@ -51,10 +51,10 @@ PROPS = {
         title='provenance', proj='proj_prov', oracle='c08',
         quick=[S_('prov_rand', count=20000), S_('homonym_rand', count=20000), S_('merge_pairs'), S_('merge_pairs_stars'), S_('merge_roles', count=20000), S_('merge_laws'),
                S_('embed_small'), S_('embed_pairs'), S_('embed_rand', count=20000), S_('forwards_rand', count=30000),
-               S_('mask0'), S_('maskp'), S_('maskflags', count=20000), S_('probes_c08', nc=1), S_('modsig')],
+               S_('mask0'), S_('maskp'), S_('maskflags', count=20000), S_('probes_c08', nc=1), S_('modsig'), S_('retrbound')],
         thorough=[S_('prov_rand', count=300000), S_('homonym_rand', count=300000), S_('merge_pairs'), S_('merge_pairs_stars'), S_('merge_roles', count=300000), S_('merge_rand', count=200000),
                   S_('merge_laws'), S_('embed_small'), S_('embed_pairs', nc=64), S_('embed_rand', count=300000),
-                  S_('forwards_rand', count=300000), S_('forwards_exh', nc=32), S_('mask0'), S_('maskp'), S_('maskflags', count=200000), S_('probes_c08', nc=1), S_('modsig')],
+                  S_('forwards_rand', count=300000), S_('forwards_exh', nc=32), S_('mask0'), S_('maskp'), S_('maskflags', count=200000), S_('probes_c08', nc=1), S_('modsig'), S_('retrbound')],
         runtime_part='identity of callables (modelled as integer ids)',
         level_text='Well-formedness of the provenance maps is an invariant of the Lean model of every algebra operation (theorems); the duplicate-free '
                    'clause is refuted on the code as it stands (finding D15) and proved under the hypothesis that excludes it. Correspondence compares '
